@@ -201,6 +201,8 @@ StringVerdict(e) ==
      ELSE IF ~(e.bperr = "none" /\ same(e.bp)) THEN "reject:Parse-back"
      ELSE IF ~(e.buerr = "none" /\ same(e.bu)) THEN "reject:UnmarshalText-back"
      ELSE IF ~(e.bserr = "none" /\ same(e.bs)) THEN "reject:Sscan-back"
+     ELSE IF Has(e, "bpe") /\ ~(e.bpeerr = "none" /\ same(e.bpe) /\ e.bueerr = "none" /\ same(e.bue) /\ e.bseerr = "none" /\ same(e.bse)) THEN "reject:e-text-back"
+     ELSE IF Has(e, "bpf") /\ ~(e.bpferr = "none" /\ same(e.bpf) /\ e.buferr = "none" /\ same(e.buf) /\ e.bsferr = "none" /\ same(e.bsf)) THEN "reject:f-text-back"
      ELSE IF ~(back.err = "none" /\ (IF x.k = "nan" THEN back.val.k = "nan" ELSE ResEq(back.val, x))) THEN "specfault:roundtrip"
      ELSE "ok"
 
